@@ -283,16 +283,19 @@ Proof.
   now rewrite nth_error_app1.
 Qed.
 
+(** the resolver never frees a node or a package slot *)
+Definition nofree (g : gstate) : Prop := free_nodes g = [] /\ free_pkgs g = [].
+
 (** what an operation may do to the parts of the graph the resolver reads back *)
 Record gframe (g g' : gstate) : Prop := {
-  gf_free : free_nodes g' = [];
+  gf_free : nofree g';
   gf_len : length (nodes g) <= length (nodes g');
   gf_nodes : forall k a, get_node g k = Some a ->
              exists b, get_node g' k = Some b /\ nitem b = nitem a /\ npkg b = npkg a /\
                        (forall nm, nk b = NImport nm <-> nk a = NImport nm) /\ (nk b = NDef <-> nk a = NDef);
   gf_pkgs : forall id p, get_pkg g id = Some p -> get_pkg g' id = Some p }.
 
-Lemma gframe_refl g : free_nodes g = [] -> gframe g g.
+Lemma gframe_refl g : nofree g -> gframe g g.
 Proof. intros H. constructor; auto. intros k a G. exists a. repeat split; auto. Qed.
 
 Lemma gframe_trans g1 g2 g3 : gframe g1 g2 -> gframe g2 g3 -> gframe g1 g3.
@@ -304,23 +307,23 @@ Proof.
 Qed.
 
 Lemma alias_same_nodes (u : universe) g n e g' o :
-  free_nodes g = [] -> alias u g n e = (g', o) ->
-  free_nodes g' = [] /\ pkgs g' = pkgs g /\ exports g' = exports g /\ imports g' = imports g /\
+  nofree g -> alias u g n e = (g', o) ->
+  nofree g' /\ pkgs g' = pkgs g /\ exports g' = exports g /\ imports g' = imports g /\
   length (nodes g) <= length (nodes g') /\
   (forall k nd, get_node g k = Some nd -> get_node g' k = Some nd).
 Proof.
-  intros F. unfold alias. destruct (get_node g n) as [nd|]; [|intros [= <- <-]; repeat split; auto].
+  intros [F Fp]. unfold alias. destruct (get_node g n) as [nd|]; [|intros [= <- <-]; repeat split; auto].
   destruct (u_inst_exports u (nitem nd)) as [ex|]; [|intros [= <- <-]; repeat split; auto].
   destruct (get_full ex e 0) as [[index kind]|]; [|intros [= <- <-]; repeat split; auto].
   destruct (find _ (outgoing g n)); [intros [= <- <-]; repeat split; auto|].
   destruct (add_node g (mk_node NAlias kind (npkg nd))) as [s1 idx] eqn:A.
   apply add_node_nofree in A as (-> & Hn & F' & He & Hi & Hx & Hd & Hp & Hf); auto.
-  intros [= <- <-]. cbn. repeat split; auto.
+  intros [= <- <-]. cbn. split; [split; [exact F'|cbn; congruence]|]. split; [exact Hp|]. split; [exact Hx|]. split; [exact Hi|]. split.
   - rewrite Hn, app_length. cbn. lia.
   - intros k a G. unfold get_node in *. cbn. rewrite Hn. now apply get_node_app_old.
 Qed.
 
-Lemma alias_gframe (u : universe) g n e g' o : free_nodes g = [] -> alias u g n e = (g', o) -> gframe g g'.
+Lemma alias_gframe (u : universe) g n e g' o : nofree g -> alias u g n e = (g', o) -> gframe g g'.
 Proof.
   intros F A. destruct (alias_same_nodes u g n e g' o F A) as (F' & P & _ & _ & L & N). constructor; auto.
   - intros k a G. exists a. rewrite (N k a G). repeat split; auto.
@@ -441,3 +444,310 @@ Section Access.
         exists nd'. rewrite IE'. injection H as <-. auto.
   Qed.
 End Access.
+
+(** * Part 4: instantiation arguments *)
+Section Args.
+  Variable u : runiverse.
+  Variable self_name : str.
+
+  (** the import name / accessed export name a node carries *)
+  Definition node_source (g : gstate) (n : nat) : option str :=
+    match get_node g n with
+    | Some nd =>
+        match nk nd with
+        | NImport nm => Some (ru_text u nm)
+        | _ => match get_alias_source u g n with Some (_, nm) => Some (ru_text u nm) | None => None end
+        end
+    | None => None
+    end.
+
+  (** the name of an inferred argument is the one the four rules of the reference give, from the
+      package path of the item's type, the import/export name it came from, and the identifier *)
+  Lemma inferred_name_spec imports id item st nm st' :
+    inferred_name u imports id item st = inl (nm, st') ->
+    st' = st /\ exists nd, get_node (rs_g st) item = Some nd /\
+      nm = infer_arg_name impl_flags_c04 (map fst imports) (id_string id)
+                          (instance_id u (nitem nd)) (node_source (rs_g st) item).
+  Proof.
+    unfold inferred_name. intros H. apply bind_inl in H as (k & s1 & H1 & H).
+    apply kind_of_inl in H1 as (-> & nd & G & ->).
+    enough (E : st' = st /\ nm = infer_arg_name impl_flags_c04 (map fst imports) (id_string id)
+                                   (instance_id u (nitem nd)) (node_source (rs_g st) item))
+      by (destruct E; split; eauto).
+    unfold infer_arg_name, node_source. rewrite G.
+    assert (Tail : forall s,
+      (match find_matching_interface_name (id_string id) imports with Some n => ret n | None => ret (id_string id) end) s
+      = inl (nm, st') -> st' = s /\ nm = path_or_self impl_flags_c04 (id_string id) (map fst imports)).
+    { intros s. rewrite <- (find_matching_is_path_rule (id_string id) imports).
+      destruct (find_matching_interface_name (id_string id) imports); intros X; apply ret_inl in X as [-> ->]; auto. }
+    assert (Src : forall (src : option str) s,
+      (match (match src with Some x => if has_key imports x then Some x else None | None => None end) with
+       | Some x => ret x
+       | None => match find_matching_interface_name (id_string id) imports with Some n => ret n | None => ret (id_string id) end
+       end) s = inl (nm, st') ->
+      st' = s /\ nm = match (match src with Some x => if mem x (map fst imports) then Some x else None | None => None end) with
+                      | Some x => x | None => path_or_self impl_flags_c04 (id_string id) (map fst imports) end).
+    { intros [x|] s; [|apply Tail]. rewrite <- has_key_mem. destruct (has_key imports x); [|apply Tail].
+      intros X; apply ret_inl in X as [-> ->]; auto. }
+    destruct (instance_id u (nitem nd)) as [i|] eqn:II.
+    - rewrite <- has_key_mem. destruct (has_key imports i) eqn:HK.
+      + apply ret_inl in H as [-> ->]. auto.
+      + apply bind_inl in H as (g & s2 & H1 & H). apply get_g_inl in H1 as [-> ->].
+        unfold node_import_name in H. rewrite G in H.
+        destruct (nk nd) as [|inm|sat|] eqn:K.
+        * apply (Src (match get_alias_source u (rs_g st) item with Some (_, nm0) => Some (ru_text u nm0) | None => None end)).
+          destruct (get_alias_source u (rs_g st) item) as [[src anm]|]; exact H.
+        * apply (Src (Some (ru_text u inm))). exact H.
+        * apply (Src (match get_alias_source u (rs_g st) item with Some (_, nm0) => Some (ru_text u nm0) | None => None end)).
+          destruct (get_alias_source u (rs_g st) item) as [[src anm]|]; exact H.
+        * apply (Src (match get_alias_source u (rs_g st) item with Some (_, nm0) => Some (ru_text u nm0) | None => None end)).
+          destruct (get_alias_source u (rs_g st) item) as [[src anm]|]; exact H.
+    - apply bind_inl in H as (g & s2 & H1 & H). apply get_g_inl in H1 as [-> ->].
+      unfold node_import_name in H. rewrite G in H.
+      destruct (nk nd) as [|inm|sat|] eqn:K.
+      * apply (Src (match get_alias_source u (rs_g st) item with Some (_, nm0) => Some (ru_text u nm0) | None => None end)).
+        destruct (get_alias_source u (rs_g st) item) as [[src anm]|]; exact H.
+      * apply (Src (Some (ru_text u inm))). exact H.
+      * apply (Src (match get_alias_source u (rs_g st) item with Some (_, nm0) => Some (ru_text u nm0) | None => None end)).
+        destruct (get_alias_source u (rs_g st) item) as [[src anm]|]; exact H.
+      * apply (Src (match get_alias_source u (rs_g st) item with Some (_, nm0) => Some (ru_text u nm0) | None => None end)).
+        destruct (get_alias_source u (rs_g st) item) as [[src anm]|]; exact H.
+  Qed.
+
+  (** ** the first pass: explicit arguments *)
+  Definition is_fill_arg (a : inst_arg) : bool := match a with AFill _ => true | _ => false end.
+  Definition is_explicit_arg (a : inst_arg) : bool := match a with AInferred _ | ANamed _ _ => true | _ => false end.
+
+  Lemma tbl_insert_inl t nm item at_ st t' st' :
+    tbl_insert t nm item at_ st = inl (t', st') -> st' = st /\ has_key t nm = false /\ t' = t ++ [(nm, (item, at_))].
+  Proof. unfold tbl_insert. destruct (has_key t nm); [discriminate|]. intros H. apply ret_inl in H as [-> ->]. auto. Qed.
+
+  Lemma NoDup_keys_snoc (t : argtbl) nm x : NoDup (map fst t) -> has_key t nm = false -> NoDup (map fst (t ++ [(nm, x)])).
+  Proof.
+    intros ND HK. rewrite map_app. cbn. apply has_key_false in HK.
+    clear -ND HK. induction (map fst t) as [|a l IH]; cbn; [constructor; auto; constructor|].
+    inversion ND; subst. constructor.
+    - rewrite in_app_iff. cbn. intros [H|[->|[]]]; [auto|]. apply HK. now left.
+    - apply IH; auto. intros H. apply HK. now right.
+  Qed.
+
+  (** after the first pass: the table has one entry per explicit argument, in order, with distinct
+      names; [...] is accepted only as the last argument and clears [require_all] *)
+  Lemma pass1_inl evalf imports args : forall t req st t' req' st',
+    pass1 u evalf imports args t req st = inl ((t', req'), st') ->
+    NoDup (map fst t) ->
+    NoDup (map fst t') /\
+    (exists ex, t' = t ++ ex /\ length ex = length (filter is_explicit_arg args)) /\
+    req' = (req && negb (existsb is_fill_arg args)) /\
+    (forall pre sp post, args = pre ++ AFill sp :: post -> post = []).
+  Proof.
+    induction args as [|a r IH]; intros t req st t' req' st' H ND.
+    - cbn in H. apply ret_inl in H as [[= -> ->] ->]. repeat split; auto.
+      + exists []. now rewrite app_nil_r.
+      + now rewrite andb_true_r.
+      + intros [|? ?] sp post E; discriminate.
+    - destruct a as [id|id|an e|sp]; cbn [pass1] in H.
+      + apply bind_inl in H as (item & s1 & H1 & H). apply bind_inl in H as (nm & s2 & H2 & H).
+        apply bind_inl in H as (t1 & s3 & H3 & H). apply tbl_insert_inl in H3 as (-> & HK & ->).
+        apply IH in H as (ND' & (ex & -> & L) & -> & F); [|now apply NoDup_keys_snoc].
+        repeat split; auto.
+        * exists ((nm, (item, off (id_span id))) :: ex). split; [now rewrite <- app_assoc|]. cbn. now rewrite L.
+        * intros [|x pre] sp post E; [discriminate|]. injection E as _ E. eauto.
+      + apply IH in H as (ND' & (ex & -> & L) & -> & F); auto. repeat split; auto.
+        * exists ex. auto.
+        * intros [|x pre] sp post E; [discriminate|]. injection E as _ E. eauto.
+      + apply bind_inl in H as (item & s1 & H1 & H).
+        apply bind_inl in H as (t1 & s3 & H3 & H). apply tbl_insert_inl in H3 as (-> & HK & ->).
+        apply IH in H as (ND' & (ex & -> & L) & -> & F); [|now apply NoDup_keys_snoc].
+        repeat split; auto.
+        * exists ((named_name imports an, (item, arg_name_at an)) :: ex). split; [now rewrite <- app_assoc|]. cbn. now rewrite L.
+        * intros [|x pre] sp post E; [discriminate|]. injection E as _ E. eauto.
+      + destruct r as [|b r]; [|discriminate].
+        cbn in H. apply ret_inl in H as [[= -> ->] ->]. repeat split; auto.
+        * exists []. now rewrite app_nil_r.
+        * cbn. now rewrite andb_false_r.
+        * intros [|x pre] sp' post E; [now injection E as _ <-|]. injection E as _ E. destruct pre; discriminate.
+  Qed.
+
+  (** a [...] that is not the last argument is rejected where it stands *)
+  Lemma pass1_fill_not_last evalf imports sp b r t req st :
+    pass1 u evalf imports (AFill sp :: b :: r) t req st = inr (FErr (EFillArgumentNotLast (off sp))).
+  Proof. reflexivity. Qed.
+
+  (** a repeated argument name is rejected at the second occurrence *)
+  Lemma tbl_insert_duplicate t nm item at_ st :
+    has_key t nm = true <-> tbl_insert t nm item at_ st = inr (FErr (EDuplicateInstantiationArg nm at_)).
+  Proof. unfold tbl_insert. destruct (has_key t nm); split; auto; discriminate. Qed.
+
+  (** ** the second pass: spread arguments *)
+  (** [n] is the graph's alias of export [nm] of the node [item] *)
+  Definition alias_witness (item : nat) (nm : str) (n : nat) : Prop :=
+    exists g g', alias u g item (ru_intern u nm) = (g', ONode n).
+
+  Lemma has_key_snoc_other {V} (t : list (str * V)) nm v x : x <> nm -> has_key (t ++ [(nm, v)]) x = has_key t x.
+  Proof.
+    intros Hne. unfold has_key. rewrite im_get_app. destruct (im_get t x); auto. cbn.
+    destruct (str_eqb nm x) eqn:E; auto. apply str_eqb_eq in E. congruence.
+  Qed.
+
+  Definition spread_filter (t : argtbl) (ex : list (str * kid)) (expected : list str) : list str :=
+    filter (fun n => negb (has_key t n) && has_key ex n) expected.
+
+  Lemma spread_names_inl item at_ nd ex : forall expected t any st t' any' st',
+    spread_names u item at_ expected t any st = inl ((t', any'), st') ->
+    nofree (rs_g st) -> NoDup expected ->
+    get_node (rs_g st) item = Some nd -> inst_exports u (nitem nd) = Some ex ->
+    exists adds, t' = t ++ adds /\
+      map fst adds = spread_filter t ex expected /\
+      Forall (fun p => snd (snd p) = at_ /\ alias_witness item (fst p) (fst (snd p))) adds /\
+      any' = (any || negb (is_nil adds)) /\
+      nofree (rs_g st') /\ rs_scope st' = rs_scope st /\ get_node (rs_g st') item = Some nd /\
+      gframe (rs_g st) (rs_g st').
+  Proof.
+    induction expected as [|nm r IH]; intros t any st t' any' st' H F ND G IE.
+    - cbn in H. apply ret_inl in H as [[= -> ->] ->]. exists []. rewrite app_nil_r, orb_false_r.
+      split; [reflexivity|]. split; [reflexivity|]. split; [constructor|]. split; [reflexivity|]. split; [exact F|].
+      split; [reflexivity|]. split; [exact G|now apply gframe_refl].
+    - inversion ND as [|? ? Hnot ND']; subst. cbn [spread_names] in H. unfold spread_filter. cbn [filter].
+      destruct (has_key t nm) eqn:HK.
+      + cbn [negb andb]. now apply IH.
+      + apply bind_inl in H as (a & s1 & H1 & H).
+        apply alias_export_inl in H1 as (nd' & ex' & G' & IE' & Sc & [(HK' & -> & ->)|(HK' & n & -> & A)]);
+          rewrite G in G'; injection G' as <-; rewrite IE in IE'; injection IE' as <-; rewrite HK'; cbn [negb andb].
+        * now apply IH.
+        * destruct (alias_same_nodes u _ _ _ _ _ F A) as (F1 & _ & _ & _ & _ & N1).
+          apply IH in H as (adds & -> & MF & FA & -> & F2 & Sc2 & G2 & GF); auto.
+          exists ((nm, (n, at_)) :: adds). rewrite <- app_assoc. split; [reflexivity|].
+          split; [|split; [|split; [|split; [|split; [|split]]]]]; auto.
+          -- cbn [map fst]. f_equal. rewrite MF. unfold spread_filter. apply filter_ext_in. intros x Hx.
+             rewrite has_key_snoc_other; auto. intros ->. contradiction.
+          -- constructor; auto. cbn. split; auto. exists (rs_g st), (rs_g s1). exact A.
+          -- cbn. now rewrite orb_true_r.
+          -- congruence.
+          -- eapply gframe_trans; [eapply alias_gframe; eauto|exact GF].
+  Qed.
+
+  Lemma local_item_inl id st n st' :
+    local_item id st = inl (n, st') -> st' = st /\ exists at0, im_get (rs_scope st) (id_string id) = Some (n, at0).
+  Proof.
+    unfold local_item. intros H. apply bind_inl in H as (sc & s1 & H1 & H). apply get_scope_inl in H1 as [-> ->].
+    destruct (im_get (rs_scope st) (id_string id)) as [[m a]|]; [|discriminate]. apply ret_inl in H as [-> ->]. eauto.
+  Qed.
+
+  (** an undefined local name is rejected with its own diagnostic, and only then *)
+  Lemma local_item_undefined id st :
+    im_get (rs_scope st) (id_string id) = None <->
+    local_item id st = inr (FErr (EUndefinedName (id_string id) (off (id_span id)))).
+  Proof.
+    unfold local_item, bind, get_scope. destruct (im_get (rs_scope st) (id_string id)) as [[m a]|]; split; auto; discriminate.
+  Qed.
+
+  Record spread_rec := { sr_id : ident; sr_item : nat; sr_exports : list (str * kid); sr_adds : argtbl }.
+
+  Definition spread_entry_ok (r : spread_rec) (p : str * (nat * N)) : Prop :=
+    snd (snd p) = off (id_span (sr_id r)) /\ alias_witness (sr_item r) (fst p) (fst (snd p)).
+
+  (** the table after the spreads [recs], applied in order to the table [t] *)
+  Inductive spreads_from (expected : list str) : argtbl -> list spread_rec -> argtbl -> Prop :=
+  | SF_nil t : spreads_from expected t [] t
+  | SF_cons t r rest t' :
+      map fst (sr_adds r) = spread_filter t (sr_exports r) expected ->
+      sr_adds r <> [] ->
+      Forall (spread_entry_ok r) (sr_adds r) ->
+      spreads_from expected (t ++ sr_adds r) rest t' ->
+      spreads_from expected t (r :: rest) t'.
+
+  Lemma spread_arg_inl id expected t st t' st' :
+    spread_arg u id expected t st = inl (t', st') -> nofree (rs_g st) -> NoDup expected ->
+    exists item at0 nd ex adds,
+      im_get (rs_scope st) (id_string id) = Some (item, at0) /\ get_node (rs_g st) item = Some nd /\
+      inst_exports u (nitem nd) = Some ex /\ t' = t ++ adds /\ map fst adds = spread_filter t ex expected /\
+      adds <> [] /\
+      Forall (fun p => snd (snd p) = off (id_span id) /\ alias_witness item (fst p) (fst (snd p))) adds /\
+      nofree (rs_g st') /\ rs_scope st' = rs_scope st /\ gframe (rs_g st) (rs_g st').
+  Proof.
+    unfold spread_arg. intros H F ND. apply bind_inl in H as (item & s1 & H1 & H).
+    apply local_item_inl in H1 as (-> & at0 & L). apply bind_inl in H as (k & s2 & H1 & H).
+    apply kind_of_inl in H1 as (-> & nd & G & ->).
+    destruct (u_inst_exports u (nitem nd)) as [l|] eqn:UE; [|discriminate].
+    apply bind_inl in H as ([t2 any] & s3 & H1 & H).
+    eapply spread_names_inl in H1 as (adds & -> & MF & FA & -> & F2 & Sc2 & G2 & GF); eauto.
+    2:{ unfold inst_exports. rewrite UE. reflexivity. }
+    cbn [orb] in H. destruct adds as [|a adds]; [discriminate|]. cbn in H. apply ret_inl in H as [-> ->].
+    exists item, at0, nd, (text_items u l), (a :: adds).
+    split; [exact L|]. split; [exact G|]. split; [unfold inst_exports; now rewrite UE|]. split; [reflexivity|].
+    split; [exact MF|]. split; [discriminate|]. split; [exact FA|]. split; [exact F2|]. split; [exact Sc2|exact GF].
+  Qed.
+
+  Definition spread_idents (args : list inst_arg) : list ident :=
+    flat_map (fun a => match a with ASpread id => [id] | _ => [] end) args.
+
+  (** what is known of a spread when it was applied: its identifier names a node of the scope
+      whose kind is an instance with the recorded exports *)
+  Definition spread_rec_ok (st : rstate) (r : spread_rec) : Prop :=
+    exists at0 nd s, im_get (rs_scope st) (id_string (sr_id r)) = Some (sr_item r, at0) /\
+      gframe (rs_g st) (rs_g s) /\ get_node (rs_g s) (sr_item r) = Some nd /\
+      inst_exports u (nitem nd) = Some (sr_exports r).
+
+  Lemma pass2_inl expected : forall args t st t' st',
+    pass2 u args expected t st = inl (t', st') -> nofree (rs_g st) -> NoDup expected ->
+    exists recs, map sr_id recs = spread_idents args /\ Forall (spread_rec_ok st) recs /\
+      spreads_from expected t recs t' /\
+      nofree (rs_g st') /\ rs_scope st' = rs_scope st /\ gframe (rs_g st) (rs_g st').
+  Proof.
+    induction args as [|a r IH]; intros t st t' st' H F ND.
+    - cbn in H. apply ret_inl in H as [-> ->]. exists []. split; [reflexivity|]. split; [constructor|]. split; [constructor|].
+      split; [exact F|]. split; [reflexivity|now apply gframe_refl].
+    - destruct a as [id|id|an e|sp]; cbn [pass2] in H; cbn [spread_idents flat_map app]; try (now apply IH).
+      apply bind_inl in H as (t1 & s1 & H1 & H).
+      apply spread_arg_inl in H1 as (item & at0 & nd & ex & adds & L & G & IE & -> & MF & NE & FA & F1 & Sc1 & GF1); auto.
+      apply IH in H as (recs & Ids & Oks & SF & F2 & Sc2 & GF2); auto.
+      exists ({| sr_id := id; sr_item := item; sr_exports := ex; sr_adds := adds |} :: recs).
+      split; [cbn; now rewrite Ids|]. split; [|split; [|split; [|split]]]; auto.
+      + constructor.
+        * exists at0, nd, st. cbn. split; [exact L|]. split; [now apply gframe_refl|]. split; [exact G|exact IE].
+        * eapply Forall_impl; [|exact Oks]. intros rr (a0 & n0 & s & L0 & GF0 & G0 & I0).
+          exists a0, n0, s. rewrite <- Sc1. split; [exact L0|]. split; [eapply gframe_trans; eauto|]. split; [exact G0|exact I0].
+      + constructor; auto.
+      + congruence.
+      + eapply gframe_trans; eauto.
+  Qed.
+
+  (** ** the binding of every import *)
+  Definition to_src (r : spread_rec) : spread_src (nat * N) :=
+    {| sp_val := (sr_item r, off (id_span (sr_id r))); sp_exports := map fst (sr_exports r) |}.
+
+  Lemma NoDup_filter_str (f : str -> bool) l : NoDup l -> NoDup (filter f l).
+  Proof.
+    induction l as [|a l IH]; cbn; auto. intros ND. inversion ND; subst. destruct (f a); auto.
+    constructor; auto. intros H. apply filter_In in H as [H _]. contradiction.
+  Qed.
+
+  Lemma spreads_from_binding expected fill : forall t recs t',
+    spreads_from expected t recs t' -> NoDup expected ->
+    forall i, In i expected ->
+    match bind_import t (map to_src recs) fill i with
+    | BExplicit x => im_get t' i = Some x
+    | BSpread sp => exists n, im_get t' i = Some (n, snd (sp_val sp)) /\ alias_witness (fst (sp_val sp)) i n
+    | BImplicit | BMissing => im_get t' i = None
+    end.
+  Proof.
+    induction 1 as [t|t r rest t' MF NE FA SF IH]; intros ND i Hi.
+    - unfold bind_import. cbn. destruct (im_get t i) eqn:E; auto. destruct fill; auto.
+    - specialize (IH ND i Hi). unfold bind_import in *. cbn [map first_spread find]. fold (first_spread (map to_src rest) i).
+      rewrite im_get_app in IH. destruct (im_get t i) as [v|] eqn:E; [exact IH|].
+      cbn [to_src sp_exports]. rewrite <- has_key_mem.
+      destruct (has_key (sr_exports r) i) eqn:HK.
+      + (* the first spread that exports [i] *)
+        assert (Hin : In i (map fst (sr_adds r))).
+        { rewrite MF. unfold spread_filter. apply filter_In. split; auto. unfold has_key at 1. now rewrite E, HK. }
+        apply in_map_iff in Hin as ([k [n a]] & Hk & Hin). cbn in Hk. subst k.
+        assert (NDa : NoDup (map fst (sr_adds r))) by (rewrite MF; now apply NoDup_filter_str).
+        rewrite (In_im_get _ _ _ NDa Hin) in IH.
+        rewrite Forall_forall in FA. destruct (FA _ Hin) as [At W]. cbn in At, W. subst a.
+        cbn [sp_val to_src fst snd]. eauto.
+      + assert (Hnot : ~ In i (map fst (sr_adds r))).
+        { rewrite MF. unfold spread_filter. intros H. apply filter_In in H as [_ H]. rewrite HK, andb_false_r in H. discriminate. }
+        apply im_get_None in Hnot. rewrite Hnot in IH. exact IH.
+  Qed.
+End Args.
